@@ -42,7 +42,7 @@ META = {"C16": {
                     "variable the other writes; no step-ending statements in the executed variant"],
     "probes": ["temp_clash", "loop_counter_clash", "flag_clash", "id_clash", "predicate_custom",
                "disagree_initial", "disagree_transition", "interleaved", "handwritten_ids", "fusion_of_a_fusion",
-               "phase_record_name_differs_from_key", "methods_with_implicit_solves",
+               "phase_record_name_differs_from_key", "methods_with_implicit_solves", "method_used_before_fusion", "statement_classes_with_asserts_stripped",
                "earlier_fusion_of_same_objects"],
 }}
 
@@ -214,8 +214,17 @@ def _run_c16(ctx):
     scA = ScriptGen(tape, max_ops=6, max_depth=2, persistent_p=False, forbid=forbid, cfg=cfgA, implicit=implicit).gen()
     scB = ScriptGen(tape, max_ops=6, max_depth=2, persistent_p=False, forbid=forbid_b, cfg=cfgB,
                     implicit=implicit).gen()
+    with tape.span("process_config"):
+        # process configuration: python -O (the statement classes of both methods come from dagrt.language
+        # compiled without assert statements)
+        lang = None
+        if tape.chance(0.2, "asserts_stripped"):
+            from simdag.gen.script import language_without_asserts
+            lang = language_without_asserts()
+            ctx.count("probe:statement_classes_with_asserts_stripped")
+            ctx.count("fault:python_O")
     try:
-        apA, apB = apply_script(scA), apply_script(scB)
+        apA, apB = apply_script(scA, lang), apply_script(scB, lang)
     except Exception:
         raise Discard("builder-exception")
     ctx.decoded["script_A"] = scA.text(apA.nm)
@@ -275,6 +284,15 @@ def _run_c16(ctx):
         pred = lambda name: False                # noqa: E731
     ctx.decoded["predicate"] = "default" if pred is None else sorted(pred_set)
 
+    with tape.span("used_before"):
+        # history: a method was run, printed or generated from before it is fused (its phases then carry their
+        # memoised root sets and id tables)
+        for tag, dag in (("A", dagA), ("B", dagB)):
+            if tape.chance(0.3, "used_before_fusion"):
+                for ph in dag.phases.values():
+                    ph.depends_on
+                    ph.id_to_stmt
+                ctx.count("probe:method_used_before_fusion")
     snapA, snapB = snapshot(dagA), snapshot(dagB)
     with tape.span("earlier_fusion"):
         # history: the same two descriptions may have been fused before, under another predicate
@@ -346,7 +364,7 @@ def _run_c16(ctx):
                         state_num=["<state>q", "<state>qc"], state_int=["<state>l"], state_arr=["<state>c"])
             scC = ScriptGen(tape, max_ops=4, max_depth=1, persistent_p=False, forbid=forbid, cfg=cfgC).gen()
             try:
-                apC = apply_script(scC)
+                apC = apply_script(scC, lang)
             except Exception:
                 raise Discard("builder-exception")
             dagC = build_dag(scC, apC)
@@ -384,6 +402,14 @@ def _run_c16(ctx):
         ids = [s.id for s in F]
         if len(set(ids)) != len(ids):
             raise Violation("ids-not-unique", "phase %s: fused ids %r" % (name, ids))
+        # what steppers and generators ask the fused phase object for must describe the fused statements
+        fph = fused.phases[name]
+        want_roots = set(ids) - set(d for s in F for d in s.depends_on)
+        if set(fph.depends_on) != want_roots or set(fph.id_to_stmt) != set(ids):
+            raise Violation("deps-not-preserved", "phase %s: the fused phase object reports roots %r and ids %r, its "
+                            "statements have roots %r and ids %r" % (name, sorted(fph.depends_on),
+                                                                    sorted(fph.id_to_stmt), sorted(want_roots),
+                                                                    sorted(ids)), site="phase-object")
         if len(F) != len(A) + len(B):
             raise Violation("deps-not-preserved", "phase %s: %d + %d statements fused into %d"
                             % (name, len(A), len(B), len(F)), site="count")
